@@ -1,5 +1,9 @@
 import Glas.Model.SyntaxCmd
 import Glas.Model.SyntaxSpec
+import Glas.Lemmas.Lexer
+import Glas.Lemmas.DslMain
+import Glas.Lemmas.TreeRanges
+import Glas.Lemmas.TreeCounter
 /-!
 # C01 — the syntax tree is lossless for every input text
 
@@ -13,8 +17,8 @@ open Glas.Dsl Glas.Tree Glas.Lexer Glas.Gen Glas.SyntaxCmd Glas.SyntaxSpec
 
 /-- the lexer's tokens are non-empty and their concatenation is the input, for any rule table -/
 theorem lex_tiles (rules : List Rule) (ek : Kind) (s : List Char) :
-    ((lex rules ek s).map (fun t => t.2)).flatten = s ∧ ∀ t ∈ lex rules ek s, t.2 ≠ [] := by
-  sorry
+    ((lex rules ek s).map (fun t => t.2)).flatten = s ∧ ∀ t ∈ lex rules ek s, t.2 ≠ [] :=
+  Glas.Lemmas.Lexer.lexFuel_tiles rules ek s.length s (Nat.le_refl _)
 
 /-- no rule of the generated table drops its text (`logos::skip`) -/
 theorem glas_noSkip : skipKinds = [] := by decide
@@ -25,27 +29,79 @@ theorem exec_advances (P : Prog) (n : Nat) (s : Stmt) (σ : St) (fr : Frame) :
     | .norm σ' _ | .brk σ' _ | .ret σ' _ =>
         σ'.toks = σ.toks ∧ σ.pos ≤ σ'.pos ∧ advCount σ'.events + σ.pos = advCount σ.events + σ'.pos
     | _ => True := by
-  sorry
+  have h := Glas.Lemmas.Dsl.exec_advOut P n s σ fr
+  generalize exec P n s σ fr = o at h
+  cases o <;> first | exact h | trivial
 
-theorem glas_mainShape : MainShape glasProg := by
-  sorry
+theorem glas_mainShape : MainShape glasProg := ⟨_, _, rfl⟩
 
 /-- a run of a well-shaped main that ends normally has consumed every token -/
 theorem main_consumes_all (P : Prog) (h : MainShape P) (n : Nat) (toks : List Kind) (σ : St)
     (hr : runMain P n toks = .ok σ) :
     σ.pos = toks.length ∧ σ.toks = toks ∧ advCount σ.events = toks.length := by
-  sorry
+  obtain ⟨f, k, hP⟩ := h
+  obtain ⟨h1, h2, h3, _⟩ := Glas.Lemmas.Dsl.run_shape P f k hP n toks σ hr
+  exact ⟨h1, h2, h3⟩
 
-theorem glas_policyOK : PolicyOK glasPolicy parserTrivia := by
-  sorry
+theorem glas_policyOK : PolicyOK glasPolicy parserTrivia where
+  pop := rfl
+  fin := rfl
+  flush := ⟨_, rfl, fun _ => rfl⟩
+  extra := rfl
+  adv := fun _ => rfl
+  opens := by
+    intro k p k' hmem hp
+    simp only [glasPolicy] at hmem
+    have key : p = is_module_doc ∨ p = is_whitespace ∨ p = is_stmt_doc ∨ p = is_trivia := by
+      split at hmem
+      · simp at hmem; simp [hmem]
+      · split at hmem
+        · simp at hmem; rcases hmem with h | h <;> simp [h]
+        · simp at hmem; simp [hmem]
+    rcases key with rfl | rfl | rfl | rfl <;>
+      simp only [parserTrivia, is_trivia, is_module_doc, is_stmt_doc, is_whitespace, Bool.and_eq_true,
+        Bool.or_eq_true, decide_eq_true_eq, beq_iff_eq] at hp ⊢ <;>
+      simp only [K_WHITESPACE, K_COMMENT, K_COMMENT_MODULE] at hp ⊢ <;> omega
+  oneStart := by
+    intro k
+    simp only [glasPolicy]
+    split
+    · rfl
+    · split <;> rfl
+
+/-- why `buildTree_lossless` below needs its `hroot` hypothesis: without it (a policy whose root
+kind eats trivia before starting its node) the statement is false — counterexample in
+`Glas/Lemmas/TreeCounter.lean` -/
+theorem buildTree_rootStart_needed :
+    ¬ ∀ (P : Prog) (π : Policy) (triv : Kind → Bool), MainShape P → PolicyOK π triv →
+      ∀ (n : Nat) (raw : List RawTok) (σ : St),
+        runMain P n ((raw.filter (fun t => !triv t.1)).map (fun t => t.1)) = .ok σ →
+        ∃ t, buildTree π σ.events raw = .ok t ∧ t.leaves = raw :=
+  Glas.Lemmas.Tree.Counter.refutation
 
 /-- whatever events a normally ending run of a well-shaped main produced, the tree builder
-succeeds on them and the leaves of the tree are the raw tokens, in order -/
-theorem buildTree_lossless (P : Prog) (π : Policy) (triv : Kind → Bool) (hP : MainShape P)
+succeeds on them and the leaves of the tree are the raw tokens, in order — provided the root kind
+`k` (the kind main closes its node with) starts its node before anything is eaten -/
+theorem buildTree_lossless (P : Prog) (π : Policy) (triv : Kind → Bool) (f : Nat) (k : Kind)
+    (hP : (P.procs[P.main]?).map (fun p => p.body) =
+      some (.seq (.open 0) (.seq (.loop (.ite (.not .eof) (.call f [] [] .none) .brk)) (.close 0 k none))))
+    (hroot : ∃ acts, π.onOpen k = .start :: acts)
     (hπ : PolicyOK π triv) (n : Nat) (raw : List RawTok) (σ : St)
     (hr : runMain P n ((raw.filter (fun t => !triv t.1)).map (fun t => t.1)) = .ok σ) :
     ∃ t, buildTree π σ.events raw = .ok t ∧ t.leaves = raw := by
-  sorry
+  obtain ⟨acts, hroot⟩ := hroot
+  obtain ⟨_, _, hadv, mid, hev, hok, hund, hcnt⟩ := Glas.Lemmas.Dsl.run_shape P f k hP n _ σ hr
+  rw [hev]
+  refine Glas.Lemmas.Tree.buildTree_ok π triv hπ k 0 acts hroot mid raw hok hund hcnt ?_
+  rw [Glas.Lemmas.Tree.ntc_eq, ← hadv, hev]
+  simp [advCount, Glas.Lemmas.Dsl.advCount_append]
+
+/-- the root kind of the generated program starts its node first -/
+theorem glas_rootStart : ∃ f k, (glasProg.procs[glasProg.main]?).map (fun p => p.body) =
+      some (.seq (.open 0) (.seq (.loop (.ite (.not .eof) (.call f [] [] .none) .brk))
+        (.close 0 k none))) ∧
+    ∃ acts, glasPolicy.onOpen k = .start :: acts :=
+  ⟨_, _, rfl, _, rfl⟩
 
 /-- **C01**: whenever the model of `parse_module` returns a tree — with or without syntax errors —
 the leaves are exactly the lexer's tokens, their texts concatenate to the input, each is non-empty,
@@ -54,6 +110,29 @@ theorem C01_lossless (n : Nat) (s : List Char) (t : Tree) (σ : St) (raw : List 
     (h : parseModel n s = .ok (t, σ, raw)) :
     raw = lexText s ∧ t.leaves = raw ∧ ((t.leaves.map (fun x => x.2)).flatten = s) ∧
     (∀ x ∈ t.leaves, x.2 ≠ []) ∧ Tiles (ranges t.leaves 0) 0 (SyntaxSpec.u8len s) := by
-  sorry
+  unfold parseModel at h
+  simp only at h
+  split at h
+  · exact absurd h (by simp)
+  · exact absurd h (by simp)
+  · rename_i σ' hrun
+    split at h
+    · exact absurd h (by simp)
+    · rename_i t' hbuild
+      simp only [Except.ok.injEq, Prod.mk.injEq] at h
+      obtain ⟨rfl, rfl, rfl⟩ := h
+      obtain ⟨f, k, hP, hroot⟩ := glas_rootStart
+      obtain ⟨t'', hb, hleaves⟩ := buildTree_lossless glasProg glasPolicy parserTrivia f
+        k hP hroot glas_policyOK n (lexText s) σ' hrun
+      rw [hbuild] at hb
+      simp only [Except.ok.injEq] at hb
+      subst hb
+      obtain ⟨hflat, hne⟩ := lex_tiles glasRules lexErrorKind s
+      have htiles := Glas.Lemmas.Tree.tiles_ranges (lexText s) 0 hne
+      rw [hleaves]
+      refine ⟨rfl, rfl, hflat, hne, ?_⟩
+      have e : (List.map (fun x => x.2) (lexText s)).flatten = s := hflat
+      rw [e, Nat.zero_add] at htiles
+      exact htiles
 
 end Glas.Props.C01
